@@ -29,6 +29,7 @@ def describe(ck):
     ck.rule("R05f", "the alphabets kalign_run selects (constructors evaluated at analysis time) have exactly id classes, all codes < the table sizes of the phase that uses them, and a code for the ambiguity letter")
     ck.rule("R05l", "heap buffers allocated in a function hold every index / copy length used on them in that function (affine comparison; decided only when the symbolic parts cancel)")
     ck.rule("R05m", "bpm_block clamps the pattern length to what its fixed-size block tables hold (cap <= blocks x 64), before any use, and Peq has SIGMA residue rows")
+    ck.rule("R05n", "counted loops over the DP workspace buffers stay within the capacity resize_aln_mem guarantees for them (cross-function affine comparison)")
     ck.rule("R05j", "loop-carried appends X->buf[X->count]; X->count++ test count against capacity before the next element access")
     ck.rule("R05k", "a local pointer that aliases storage owned by a struct field is not passed to a releaser while the owner still holds it")
     ck.not_decided += ["termination of all loops", "index safety inside the DP / bit-parallel kernels",
@@ -346,6 +347,7 @@ def run(ck, progs):
         ck.floor("R05i", n, 20, "out-parameter publications")
         ck.attempt(r05f, ck, prog)
         ck.attempt(r05m, ck, prog)
+        ck.attempt(r05n, ck, prog)
         n = ck.attempt(r05l, ck, prog)
         ck.floor("R05l", n, 120, "decided heap accesses")
         n = ck.attempt(r05j, ck, prog)
@@ -863,36 +865,54 @@ def r05j(ck, prog, functions=None, table=None):
 
 # --------------------------------------------------------------------------- R05f
 def used_alphabets(prog):
-    """alphabet ids kalign_run hands to convert_msa_to_internal, split by phase (before/after the guide tree)"""
-    F = prog.fn("kalign_run")
-    cfg = F.cfg
-    tree = [cfg.position(c) for c in F.body.calls("build_tree_kmeans")]
-    if not tree:
+    """alphabet ids kalign_run hands to convert_msa_to_internal, split by phase (before/after the guide tree).
+    The calls may sit in kalign_run or in private helpers of it (kcheck/lift.py)."""
+    from ..callgraph import CallGraph
+    from ..lift import Lifted
+    K = prog.fn("kalign_run")
+    L = Lifted(prog, CallGraph(prog))
+    if not L.sites(K, "build_tree_kmeans", "may"):
         raise AnalysisBroken("R05f slot: kalign_run does not call build_tree_kmeans")
     phases = {"distance": [], "alignment": []}
-    for c in F.body.calls("convert_msa_to_internal"):
+    found = L.find_call(K, "convert_msa_to_internal")
+    if not found:
+        raise AnalysisBroken("R05f slot: convert_msa_to_internal is not called from kalign_run or its private helpers")
+
+    def rel(G, c):
+        """(runs before the tree is built, runs after it) for call c in function G"""
+        trees = L.sites(G, "build_tree_kmeans", "may")
+        if trees:
+            cfg = G.cfg
+            return (any(cfg.reaches(cfg.position(c), cfg.position(t)) for t in trees),
+                    any(cfg.reaches(cfg.position(t), cfg.position(c)) for t in trees))
+        # the helper does not build the tree: use the position of the helper call in kalign_run
+        cfg = K.cfg
+        hs = [h for h in L.sites(K, "convert_msa_to_internal", "may") if h.callee == G.name or G.name in L.may(h.callee)]
+        trees = L.sites(K, "build_tree_kmeans", "may")
+        return (any(cfg.reaches(cfg.position(h), cfg.position(t)) for h in hs for t in trees),
+                any(cfg.reaches(cfg.position(t), cfg.position(h)) for h in hs for t in trees))
+
+    info = []
+    for G, c in found:
         if len(c.args) < 2:
             continue
         a = c.args[1]
         name = macro_of_const(a.strip(casts=True)) or macro_of_const(a)
         if name is None or not name.startswith("ALPHA_"):
             raise AnalysisBroken("R05f slot: alphabet argument %s of convert_msa_to_internal is not an ALPHA_* constant" % a.text())
-        after_tree = any(cfg.reaches(t, cfg.position(c)) for t in tree)
-        before_tree = any(cfg.reaches(cfg.position(c), t) for t in tree)
-        if before_tree:
+        before, after = rel(G, c)
+        info.append((name, c, G, before, after))
+        if before:
             phases["distance"].append((name, c))
-        if after_tree:
+        if after:
             phases["alignment"].append((name, c))
-        elif not any(True for _ in F.body.calls("convert_msa_to_internal") if _ is not c and
-                     any(cfg.reaches(cfg.position(c), cfg.position(_)) for t in tree)):
-            pass
-    # an alphabet selected before the tree stays in force for the alignment unless replaced on that path
-    for name, c in phases["distance"]:
-        replaced = [d for n2, d in phases["alignment"] if cfg.reaches(cfg.position(c), cfg.position(d))]
-        # DNA is not converted again: it is also the alignment alphabet
-        guards_c = [g.text() for g, pol in guards(c) if "biotype" in g.text()]
-        same_branch = [d for d in replaced if any(gt in [g.text() for g, pol in guards(d)] for gt in guards_c)]
-        if not same_branch and (name, c) not in phases["alignment"]:
+    # an alphabet selected before the tree stays in force for the alignment unless replaced on the same biotype branch
+    for name, c, G, before, after in info:
+        if not before:
+            continue
+        gc = {g.text() for g, pol in guards(c) if "biotype" in g.text()}
+        replaced = [d for n2, d, G2, b2, a2 in info if a2 and d is not c and gc & {g.text() for g, pol in guards(d) if "biotype" in g.text()}]
+        if not replaced and (name, c) not in phases["alignment"]:
             phases["alignment"].append((name, c))
     return phases
 
@@ -1305,3 +1325,113 @@ def r05m(ck, prog):
                 ck.violation("R05m", "R05m/bpm_block/clamp-late", site(prog, r),
                              "the pattern length is used before it is clamped", prog.config)
                 break
+
+
+# --------------------------------------------------------------------------- R05n
+def r05n(ck, prog):
+    """capacity contract of the DP workspace: resize_aln_mem guarantees  capacity >= g(len_a, len_b)  for the buffers it
+    re-allocates; every counted loop in the library that indexes such a buffer must stay below that guarantee
+    (affine comparison over m->len_a / m->len_b; undecided when the forms do not cancel)."""
+    from ..affine import lin, Lin, loop_range, single_defs
+    from ..util import local_defs
+    R = prog.fn("resize_aln_mem")
+    cfg = R.cfg
+    guarantees = {}
+    for ifs in R.body.find("IfStmt"):
+        c = ifs.child("cond").strip()
+        if not (c.k == "BinaryOperator" and c.d["op"] in (">", ">=")):
+            continue
+        gvar = c.kids[0].strip(casts=True)
+        cap = c.kids[1].strip(casts=True)
+        if gvar.k != "DeclRefExpr" or cap.k != "MemberExpr":
+            continue
+        # reaching definition of the requirement variable
+        defs = [(r, n) for r, n in local_defs(R, gvar.d["did"]) if r is not None]
+        reach = []
+        pos_if = cfg.position(c)
+        for r, n in defs:
+            others = [cfg.position(n2) for r2, n2 in defs if n2 is not n]
+            if cfg.reaches(cfg.position(n), pos_if, avoid=[o for o in others if o is not None]):
+                reach.append(r)
+        if len(reach) != 1:
+            continue
+        need = lin(reach[0])
+        bufs = []
+        for call in ifs.child("then").calls("realloc", "malloc"):
+            for a in ifs.child("then").find("BinaryOperator"):
+                pass
+        for a in ifs.child("then").find("BinaryOperator"):
+            if a.d["op"] == "=" and a.kids[1].strip(casts=True).k == "DeclRefExpr" and a.kids[1].strip(casts=True).d["name"] == "tmpp":
+                t = a.kids[0].strip()
+                if t.k == "MemberExpr":
+                    bufs.append(t.d["field"])
+        # the reallocation must be sized by the capacity that was just raised
+        sized_by_cap = all(cap.d["field"] in x.text() for x in ifs.child("then").calls("realloc"))
+        for b in bufs:
+            guarantees[b] = (need, reach[0], cap.d["field"], sized_by_cap, ifs)
+    if not guarantees:
+        raise AnalysisBroken("R05n slot: no capacity guarantee recognised in resize_aln_mem")
+    n = 0
+    for b, (need, node, capf, ok_sz, ifs) in sorted(guarantees.items()):
+        ck.inst("R05n", site(prog, ifs, b), "resize_aln_mem guarantees aln_mem.%s holds %s element(s) (capacity field %s)" % (
+            b, need if need is not None else node.text(), capf), prog.config)
+        if not ok_sz:
+            ck.violation("R05n", "R05n/resize_aln_mem/%s-size" % b, site(prog, ifs), "the reallocation of %s is not sized by %s" % (b, capf), prog.config)
+    for F in prog.lib_functions():
+        if F.name in ("resize_aln_mem", "alloc_aln_mem", "free_aln_mem"):
+            continue
+        subst = single_defs(F)
+        # names that denote one of the guaranteed buffers in this function
+        alias = {}
+        for t, l in list(subst.items()):
+            pass
+        for n_ in F.body.walk():
+            rhs = None
+            tgt = None
+            if n_.k == "BinaryOperator" and n_.d["op"] == "=" and n_.kids[0].strip().k == "DeclRefExpr":
+                tgt, rhs = n_.kids[0].strip().d["name"], n_.kids[1].strip(casts=True)
+            elif n_.k == "DeclStmt":
+                for kid in n_.kids:
+                    if kid.role == "declinit":
+                        r0 = kid.strip(casts=True)
+                        if r0.k == "MemberExpr" and r0.d.get("rec") == "aln_mem" and r0.d["field"] in guarantees:
+                            alias.setdefault(kid.decl["name"], set()).add(r0.d["field"])
+                continue
+            if rhs is not None and rhs.k == "MemberExpr" and rhs.d.get("rec") == "aln_mem" and rhs.d["field"] in guarantees:
+                alias.setdefault(tgt, set()).add(rhs.d["field"])
+        for sub in F.body.find("ArraySubscriptExpr"):
+            base = sub.kids[0].strip(casts=True)
+            fields = None
+            if base.k == "MemberExpr" and base.d.get("rec") == "aln_mem" and base.d["field"] in guarantees:
+                fields = {base.d["field"]}
+            elif base.k == "DeclRefExpr" and base.d["name"] in alias:
+                fields = alias[base.d["name"]]
+            if not fields:
+                continue
+            idx = sub.kids[1].strip(casts=True)
+            loops = [x for x in sub.ancestors() if x.k == "ForStmt"]
+            rng = None
+            for lp in loops:
+                r = loop_range(lp, subst)
+                if r is not None and r[0] == idx.text():
+                    rng = r
+                    break
+            if rng is None:
+                continue
+            hi = rng[2]
+            for f in fields:
+                need = guarantees[f][0]
+                if need is None:
+                    continue
+                diff = need.add(hi, -1)
+                if not diff.is_const():
+                    continue
+                n += 1
+                where = site(prog, sub, sub.text()[:40])
+                ck.inst("R05n", where, "%s indexes aln_mem.%s up to %s (exclusive); guaranteed capacity %s" % (F.name, f, hi, need), prog.config)
+                if diff.c < 0:
+                    ck.violation("R05n", "R05n/%s/%s" % (F.name, f), where,
+                                 "%s writes/reads aln_mem.%s up to index %s but resize_aln_mem only guarantees %s element(s): the two "
+                                 "sites disagree by %d and the access runs past the allocation when the capacity is exactly met" % (
+                                     F.name, f, hi.add(Lin(-1)), need, -diff.c), prog.config)
+    ck.floor("R05n", n, 1, "decided uses of guaranteed buffers")
